@@ -16,6 +16,9 @@ open Pymodbus Pymodbus.Framer
   | zero => rfl
   | succ k => rw [tailOps_succ]; simp
 
+@[simp] theorem onlyReleases_tailX (r : Req) (k : Nat) : onlyReleases (tailX r k) = false := by
+  unfold tailX; split <;> simp
+
 theorem curPending_congr' {th th' : Thread} (hc : th'.cur = th.cur) (h : onlyReleases th.ops = false)
     (h' : onlyReleases th'.ops = false) : curPending th' = curPending th := by
   simp [curPending, h, h', hc]
@@ -76,38 +79,41 @@ theorem Idle.quiet {v : View} (h : Idle v) (c : Nat) (hs : v.sock = some c) : Qu
 
 /-- where the holder is between taking and giving back the MANAGER lock, and what connection `c` looks like there -/
 inductive IStage (sh : Shared) (c : Nat) (t : Nat) (th : Thread) : Prop where
-  | tid (k : Nat) (h : th.ops = .tid :: .connect :: .flush :: .send1 :: .send2 :: tailOps k) (q : Quiet sh)
-  | connect (k : Nat) (h : th.ops = .connect :: .flush :: .send1 :: .send2 :: tailOps k) (q : Quiet sh)
-  | flush (k : Nat) (h : th.ops = .flush :: .send1 :: .send2 :: tailOps k) (q : Quiet sh)
+  | tid (k : Nat) (h : th.ops = .tid :: .connect :: .flush :: .send1 :: .send2 :: tailX th.cur k) (q : Quiet sh)
+  | connect (k : Nat) (h : th.ops = .connect :: .flush :: .send1 :: .send2 :: tailX th.cur k) (q : Quiet sh)
+  | flush (k : Nat) (h : th.ops = .flush :: .send1 :: .send2 :: tailX th.cur k) (q : Quiet sh)
       (hfr : th.frame = frameOf th.tidv th.cur)
-  | send1 (k : Nat) (h : th.ops = .send1 :: .send2 :: tailOps k) (q : Quiet sh)
+  | send1 (k : Nat) (h : th.ops = .send1 :: .send2 :: tailX th.cur k) (q : Quiet sh)
       (hfr : th.frame = frameOf th.tidv th.cur) (hc : th.sconn = c)
-  | send2 (k : Nat) (h : th.ops = .send2 :: tailOps k)
+  | send2 (k : Nat) (h : th.ops = .send2 :: tailX th.cur k)
       (hfr : th.frame = frameOf th.tidv th.cur) (hc : th.sconn = c) (hp : sh.pending = th.frame.take 7)
       (hs : sh.stream = []) (hb : sh.buf = [])
       (hw : ∃ w, pairs w = true ∧ sh.wire = w ++ [⟨t, true, c, th.frame.take 7⟩])
-  | waiting (k : Nat) (h : th.ops = tailOps k) (hp : sh.pending = [])
+  | bsent (h : th.ops = [.bdone, .release, .crelease]) (hbc : th.cur.bcast = true) (q : Quiet sh)
+  | waiting (k : Nat) (h : th.ops = tailOps k) (hbc : th.cur.bcast = false) (hp : sh.pending = [])
       (hs : sh.stream = answer th.cur (replyOf th.tidv th.cur)) (hb : sh.buf = []) (hw : pairs sh.wire = true)
-  | recv2 (h : th.ops = [.recv2, .process, .release, .crelease]) (hl : th.cur.lost = false)
+  | recv2 (h : th.ops = [.recv2, .process, .release, .crelease]) (hbc : th.cur.bcast = false)
+      (hl : th.cur.lost = false)
       (hh : th.hdr = (replyOf th.tidv th.cur).take 8)
       (hp : sh.pending = []) (hs : sh.stream = (replyOf th.tidv th.cur).drop 8) (hb : sh.buf = [])
       (hw : pairs sh.wire = true)
-  | process (h : th.ops = [.process, .release, .crelease])
+  | process (h : th.ops = [.process, .release, .crelease]) (hbc : th.cur.bcast = false)
       (hr : th.resp = answer th.cur (replyOf th.tidv th.cur)) (q : Quiet sh)
   | release (h : th.ops = [.release, .crelease]) (q : Quiet sh)
 
 /-- where the holder of the CLIENT lock is inside `BaseModbusClient.execute` -/
 inductive Stage (v : View) (t : Nat) (th : Thread) : Prop where
-  | pre (k : Nat) (h : th.ops = .preconnect :: .acquire :: .tid :: .connect :: .flush :: .send1 :: .send2 :: tailOps k)
+  | pre (k : Nat) (h : th.ops = .preconnect :: .acquire :: .tid :: .connect :: .flush :: .send1 :: .send2 :: tailX th.cur k)
       (q : Idle v) (hm : v.m = none)
-  | opening (k : Nat) (h : th.ops = .open :: .acquire :: .tid :: .connect :: .flush :: .send1 :: .send2 :: tailOps k)
+  | opening (k : Nat) (h : th.ops = .open :: .acquire :: .tid :: .connect :: .flush :: .send1 :: .send2 :: tailX th.cur k)
       (q : Idle v) (hs : v.sock = none) (hm : v.m = none)
-  | acq (k : Nat) (h : th.ops = .acquire :: .tid :: .connect :: .flush :: .send1 :: .send2 :: tailOps k)
+  | acq (k : Nat) (h : th.ops = .acquire :: .tid :: .connect :: .flush :: .send1 :: .send2 :: tailX th.cur k)
       (q : Idle v) (c : Nat) (hs : v.sock = some c) (hm : v.m = none)
   | inner (c : Nat) (hs : v.sock = some c) (hc1 : c + 1 = v.nc) (hfr : FreshF v.pending v.stream v.nc)
       (hm : v.m = some (t, 1)) (st : IStage (v.shared c) c t th)
   /- the reply was lost: the failed read has closed the connection; the error object is still to be made -/
-  | closedProc (h : th.ops = [.process, .release, .crelease]) (hr : th.resp = []) (hl : th.cur.lost = true)
+  | closedProc (h : th.ops = [.process, .release, .crelease]) (hr : th.resp = []) (hbc : th.cur.bcast = false)
+      (hl : th.cur.lost = true)
       (hs : v.sock = none) (hb : v.buf = []) (hw : pairs v.wire = true) (hfr : FreshF v.pending v.stream v.nc)
       (hm : v.m = some (t, 1))
   | closedRel (h : th.ops = [.release, .crelease]) (hs : v.sock = none) (hb : v.buf = [])
@@ -117,7 +123,7 @@ inductive Stage (v : View) (t : Nat) (th : Thread) : Prop where
 /-- not inside `execute`: between calls, or about to take the client lock -/
 def Outside (th : Thread) : Prop :=
   th.ops = [] ∨ ∃ k, th.ops =
-    .cacquire :: .preconnect :: .acquire :: .tid :: .connect :: .flush :: .send1 :: .send2 :: tailOps k
+    .cacquire :: .preconnect :: .acquire :: .tid :: .connect :: .flush :: .send1 :: .send2 :: tailX th.cur k
 
 abbrev Fate (cok : Nat → Bool) (x : Req × Nat × Result) : Prop := Spec.Answered cok x
 
@@ -147,6 +153,7 @@ theorem IStage.head {sh : Shared} {c t : Nat} {th : Thread} (h : IStage sh c t t
   | send2 k h => exact ⟨_, _, h, by simp, by simp, by simp, by simp⟩
   | recv2 h => exact ⟨_, _, h, by simp, by simp, by simp, by simp⟩
   | process h => exact ⟨_, _, h, by simp, by simp, by simp, by simp⟩
+  | bsent h => exact ⟨_, _, h, by simp, by simp, by simp, by simp⟩
   | release h => exact ⟨_, _, h, by simp, by simp, by simp, by simp⟩
 
 /-- the holder of the client lock can always move: its next operation is never the acquisition of the client lock,
@@ -266,6 +273,14 @@ theorem inv_crelease {s s' : State} {h : Nat} (hi : Inv reqs s) (hl : s.locks 0 
     · subst hu; exact hok
     · rw [hoth u hu]; exact hi.ok u
 
+theorem filter_crelease_tailX (r : Req) (k : Nat) : (tailX r k).filter (· == Op.crelease) = [.crelease] := by
+  unfold tailX
+  split
+  · rfl
+  · induction k with
+    | zero => rfl
+    | succ k ih => rw [tailOps_succ, List.filter_cons_of_neg (by decide)]; exact ih
+
 theorem filter_crelease_tail (k : Nat) : (tailOps k).filter (· == Op.crelease) = [.crelease] := by
   induction k with
   | zero => rfl
@@ -276,7 +291,9 @@ theorem processResp_nil (u tid : Nat) : processResp u tid [] [] = (.err .modbusI
 
 theorem answer_nil (r : Req) : answer r [] = [] := by unfold answer; split <;> rfl
 theorem answer_lost {r : Req} (h : r.lost = true) (b : Bytes) : answer r b = [] := by simp [answer, h]
-theorem answer_kept {r : Req} (h : r.lost = false) (b : Bytes) : answer r b = b := by simp [answer, h]
+theorem answer_bcast {r : Req} (h : r.bcast = true) (b : Bytes) : answer r b = [] := by simp [answer, h]
+theorem answer_kept {r : Req} (hb : r.bcast = false) (h : r.lost = false) (b : Bytes) : answer r b = b := by
+  simp [answer, h, hb]
 
 /-- the holder moves between taking and giving back the manager lock, on connection `c` (no lock changes, the
     socket stays) -/
@@ -352,27 +369,66 @@ theorem inv_holder_inner {s : State} {t c : Nat} {op : Op} {ops : List Op} (hi :
     have hs0 : s.stream c = [] := hsm
     obtain ⟨w, hw1, hw2⟩ := hw
     have hw0 : s.wire = w ++ [⟨t, true, c, (s.threads t).frame.take 7⟩] := hw2
-    refine inv_inner_step hi hl hoth (by simp [stepOp, hs]) (by simpa [stepOp, hs] using hs) (by simp [stepOp, hs])
-      hc1 ?_ hm (IStage.waiting k ?_ ?_ ?_ ?_ ?_) ?_
-    · simp only [stepOp, hs, hc]
-      exact (hfr.upd_pending c _ hcn).upd_stream c _ hcn
-    · simp [stepOp, hs, upd_same]
-    · simp only [stepOp, hs, State.view, View.shared, upd_same, hc, hp0, hfm, server_send2]
-    · simp only [stepOp, hs, State.view, View.shared, upd_same, hc, hp0, hs0, hfm, server_send2, replyTo_frame,
-        List.nil_append]
-    · simpa [stepOp, hs, State.view, View.shared] using hb
-    · simp only [stepOp, hs, State.view, View.shared, hc, hw0, List.append_assoc]
-      exact pairs_snoc2 w _ _ hw1 rfl rfl rfl rfl
-    · exact hok.congr (by simp [stepOp, hs, upd_same]) (by simp [stepOp, hs, upd_same])
-        (curPending_congr' (by simp [stepOp, hs, upd_same]) (by rw [h]; simp) (by simp [stepOp, hs, upd_same]))
-  | waiting k h hp hsm hb hw =>
+    have hpair : pairs (s.wire ++ [⟨t, false, c, (s.threads t).frame.drop 7⟩]) = true := by
+      rw [hw0, List.append_assoc]; exact pairs_snoc2 w _ _ hw1 rfl rfl rfl rfl
+    cases hbc : (s.threads t).cur.bcast with
+    | false =>
+      rw [tailX_plain hbc] at hoth ⊢
+      refine inv_inner_step hi hl hoth (by simp [stepOp, hs]) (by simpa [stepOp, hs] using hs) (by simp [stepOp, hs])
+        hc1 ?_ hm (IStage.waiting k ?_ ?_ ?_ ?_ ?_ ?_) ?_
+      · simp only [stepOp, hs, hc]
+        exact (hfr.upd_pending c _ hcn).upd_stream c _ hcn
+      · simp [stepOp, hs, upd_same]
+      · simpa [stepOp, hs, upd_same] using hbc
+      · simp only [stepOp, hs, State.view, View.shared, upd_same, hc, hp0, hfm, server_send2]
+      · simp only [stepOp, hs, State.view, View.shared, upd_same, hc, hp0, hs0, hfm, server_send2, replyTo_frame,
+          List.nil_append]
+      · simpa [stepOp, hs, State.view, View.shared] using hb
+      · simpa [stepOp, hs, State.view, View.shared, hc] using hpair
+      · exact hok.congr (by simp [stepOp, hs, upd_same]) (by simp [stepOp, hs, upd_same])
+          (curPending_congr' (by simp [stepOp, hs, upd_same]) (by rw [h]; simp) (by simp [stepOp, hs, upd_same]))
+    | true =>
+      -- a broadcast: the frame is out, no unit answers, nothing will be read
+      rw [tailX_bcast hbc] at hoth ⊢
+      refine inv_inner_step hi hl hoth (by simp [stepOp, hs]) (by simpa [stepOp, hs] using hs) (by simp [stepOp, hs])
+        hc1 ?_ hm (IStage.bsent ?_ ?_ ⟨?_, ?_, ?_, ?_⟩) ?_
+      · simp only [stepOp, hs, hc]
+        exact (hfr.upd_pending c _ hcn).upd_stream c _ hcn
+      · simp [stepOp, hs, upd_same]
+      · simpa [stepOp, hs, upd_same] using hbc
+      · simp only [stepOp, hs, State.view, View.shared, upd_same, hc, hp0, hfm, server_send2]
+      · simp only [stepOp, hs, State.view, View.shared, upd_same, hc, hp0, hs0, hfm, server_send2,
+          answer_bcast hbc, List.nil_append]
+      · simpa [stepOp, hs, State.view, View.shared] using hb
+      · simpa [stepOp, hs, State.view, View.shared, hc] using hpair
+      · exact hok.congr (by simp [stepOp, hs, upd_same]) (by simp [stepOp, hs, upd_same])
+          (curPending_congr' (by simp [stepOp, hs, upd_same]) (by rw [h]; simp) (by simp [stepOp, hs, upd_same]))
+  | bsent h hbc q =>
+    rw [h] at hops; cases hops
+    have hcp : curPending (s.threads t) = [(s.threads t).cur] := curPending_of (by rw [h]; simp)
+    refine inv_inner_step hi hl hoth rfl hs rfl hc1 hfr hm (IStage.release ?_ q) ⟨?_, ?_⟩
+    · simp [stepOp, upd_same]
+    · intro x hx
+      have hx' : x ∈ (s.threads t).results ++ [((s.threads t).cur, (s.threads t).tidv, .bcastSent)] := by
+        simpa [stepOp, upd_same] using hx
+      rw [List.mem_append] at hx'
+      cases hx' with
+      | inl hx' => exact hok.served x hx'
+      | inr hx' =>
+        rw [List.mem_singleton] at hx'
+        rw [hx']
+        exact Or.inr (Or.inl ⟨hbc, rfl⟩)
+    · exact hok.conserve.finish hcp ((s.threads t).tidv, .bcastSent)
+        (by simp [stepOp, upd_same]) (by simp [stepOp, upd_same]) (by simp [stepOp, upd_same])
+  | waiting k h hbc hp hsm hb hw =>
     have hs0 : s.stream c = answer (s.threads t).cur (replyOf (s.threads t).tidv (s.threads t).cur) := hsm
     have hp0 : s.pending c = [] := hp
     cases k with
     | succ k =>
       rw [h, tailOps_succ] at hops; cases hops
-      refine inv_inner_step hi hl hoth rfl hs rfl hc1 hfr hm (IStage.waiting k ?_ hp ?_ hb hw) ?_
+      refine inv_inner_step hi hl hoth rfl hs rfl hc1 hfr hm (IStage.waiting k ?_ ?_ hp ?_ hb hw) ?_
       · simp [stepOp, upd_same]
+      · simpa [stepOp, upd_same] using hbc
       · simpa [stepOp, State.view, View.shared, upd_same] using hs0
       · exact hok.congr (by simp [stepOp, upd_same]) (by simp [stepOp, upd_same])
           (curPending_congr' (by simp [stepOp, upd_same]) (by rw [h]; simp) (by simp [stepOp, upd_same]))
@@ -382,9 +438,10 @@ theorem inv_holder_inner {s : State} {t c : Nat} {op : Op} {ops : List Op} (hi :
       | true =>
         -- `recvPacket(None)`: whatever is there (the whole reply, or nothing if it was lost); no second read
         refine inv_inner_step hi hl hoth (by simp [stepOp, hs, hf]) (by simp [stepOp, hs, hf])
-          (by simp [stepOp, hs, hf]) hc1 ?_ hm (IStage.process ?_ ?_ ⟨?_, ?_, ?_, ?_⟩) ?_
+          (by simp [stepOp, hs, hf]) hc1 ?_ hm (IStage.process ?_ ?_ ?_ ⟨?_, ?_, ?_, ?_⟩) ?_
         · simp only [stepOp, hs, hf, if_true]; exact hfr.upd_stream c [] hcn
         · simp [stepOp, hs, hf, upd_same]
+        · simpa [stepOp, hs, hf, upd_same] using hbc
         · simp only [stepOp, hs, hf, if_true, upd_same, hs0]
         · simpa [stepOp, hs, hf, State.view, View.shared] using hp0
         · simp [stepOp, hs, hf, State.view, View.shared, upd_same]
@@ -397,7 +454,7 @@ theorem inv_holder_inner {s : State} {t c : Nat} {op : Op} {ops : List Op} (hi :
         cases hlost : (s.threads t).cur.lost with
         | false =>
           have hs1 : s.stream c = replyOf (s.threads t).tidv (s.threads t).cur := by
-            rw [hs0, answer_kept hlost]
+            rw [hs0, answer_kept hbc hlost]
           have e8 : ((s.stream c).take 8).length = 8 := by rw [hs1]; exact replyOf_take8 _ _
           have e : stepOp .whole s t (s.threads t) [.recv2, .process, .release, .crelease] .recv1 =
               { s with stream := upd s.stream c ((s.stream c).drop 8),
@@ -409,8 +466,9 @@ theorem inv_holder_inner {s : State} {t c : Nat} {op : Op} {ops : List Op} (hi :
           have hoth' := hoth
           rw [e] at hoth' ⊢
           refine inv_inner_step hi hl hoth' rfl hs rfl hc1 (hfr.upd_stream c _ hcn) hm
-            (IStage.recv2 ?_ ?_ ?_ hp ?_ hb hw) ?_
+            (IStage.recv2 ?_ ?_ ?_ ?_ hp ?_ hb hw) ?_
           · simp [upd_same]
+          · simpa [upd_same] using hbc
           · simpa [upd_same] using hlost
           · simp only [upd_same, hs1]
           · simp only [State.view, View.shared, upd_same, hs1]
@@ -429,23 +487,25 @@ theorem inv_holder_inner {s : State} {t c : Nat} {op : Op} {ops : List Op} (hi :
           have hoth' := hoth
           rw [e] at hoth' ⊢
           refine inv_holder_step hi hl hoth' hl
-            (Stage.closedProc ?_ ?_ ?_ rfl hb hw (hfr.upd_stream c [] hcn) hm) ?_
+            (Stage.closedProc ?_ ?_ ?_ ?_ rfl hb hw (hfr.upd_stream c [] hcn) hm) ?_
           · simp [upd_same]
           · simp [upd_same]
+          · simpa [upd_same] using hbc
           · simpa [upd_same] using hlost
           · exact hok.congr (by simp [upd_same]) (by simp [upd_same])
               (curPending_congr' (by simp [upd_same]) (by rw [h]; simp) (by simp [upd_same]))
-  | recv2 h hlost hh hp hsm hb hw =>
+  | recv2 h hbc hlost hh hp hsm hb hw =>
     rw [h] at hops; cases hops
     have hs0 : s.stream c = (replyOf (s.threads t).tidv (s.threads t).cur).drop 8 := hsm
     have hresp : (s.threads t).hdr ++ (s.stream c).take (restSize (s.threads t).hdr) =
         replyOf (s.threads t).tidv (s.threads t).cur := by
       rw [hh, hs0, restSize_reply]; exact (reply_reassembled _ _).1
     refine inv_inner_step hi hl hoth (by simp [stepOp, hs]) (by simp [stepOp, hs]) (by simp [stepOp, hs]) hc1 ?_ hm
-      (IStage.process ?_ ?_ ⟨?_, ?_, ?_, ?_⟩) ?_
+      (IStage.process ?_ ?_ ?_ ⟨?_, ?_, ?_, ?_⟩) ?_
     · simp only [stepOp, hs]; exact hfr.upd_stream c _ hcn
     · simp [stepOp, hs, upd_same]
-    · simp only [stepOp, hs, upd_same, hresp, answer_kept hlost]
+    · simpa [stepOp, hs, upd_same] using hbc
+    · simp only [stepOp, hs, upd_same, hresp, answer_kept hbc hlost]
     · simpa [stepOp, hs, State.view, View.shared] using hp
     · simp only [stepOp, hs, State.view, View.shared, upd_same]
       rw [hh, hs0, restSize_reply]; exact (reply_reassembled _ _).2
@@ -453,7 +513,7 @@ theorem inv_holder_inner {s : State} {t c : Nat} {op : Op} {ops : List Op} (hi :
     · simpa [stepOp, hs, State.view, View.shared] using hw
     · exact hok.congr (by simp [stepOp, hs, upd_same]) (by simp [stepOp, hs, upd_same])
         (curPending_congr' (by simp [stepOp, hs, upd_same]) (by rw [h]; simp) (by simp [stepOp, hs, upd_same]))
-  | process h hr q =>
+  | process h hbc hr q =>
     rw [h] at hops; cases hops
     have hb0 : s.buf = [] := q.2.2.1
     have hcp : curPending (s.threads t) = [(s.threads t).cur] := curPending_of (by rw [h]; simp)
@@ -461,7 +521,7 @@ theorem inv_holder_inner {s : State} {t c : Nat} {op : Op} {ops : List Op} (hi :
     | false =>
       have hpr' : processResp (s.threads t).cur.unit (s.threads t).tidv s.buf (s.threads t).resp =
           (.ok (s.threads t).tidv (s.threads t).cur.unit (Spec.expected (s.threads t).cur), []) := by
-        rw [hb0, hr, answer_kept hlost, process_reply]
+        rw [hb0, hr, answer_kept hbc hlost, process_reply]
       refine inv_inner_step hi hl hoth rfl ?_ rfl hc1 hfr hm (IStage.release ?_ ⟨q.1, q.2.1, ?_, q.2.2.2⟩) ⟨?_, ?_⟩
       · simp only [stepOp, hpr', Result.isOk, if_true]; exact hs
       · simp [stepOp, upd_same]
@@ -478,7 +538,7 @@ theorem inv_holder_inner {s : State} {t c : Nat} {op : Op} {ops : List Op} (hi :
         | inr hx' =>
           rw [List.mem_singleton] at hx'
           rw [hx', hpr']
-          exact Or.inr (Or.inr ⟨hlost, rfl⟩)
+          exact Or.inr (Or.inr (Or.inr ⟨hbc, hlost, rfl⟩))
       · exact hok.conserve.finish hcp
           ((s.threads t).tidv, (processResp (s.threads t).cur.unit (s.threads t).tidv s.buf (s.threads t).resp).1)
           (by simp [stepOp, upd_same]) (by simp [stepOp, upd_same]) (by simp [stepOp, upd_same])
@@ -504,7 +564,7 @@ theorem inv_holder_inner {s : State} {t c : Nat} {op : Op} {ops : List Op} (hi :
         | inr hx' =>
           rw [List.mem_singleton] at hx'
           rw [hx', hpr']
-          exact Or.inr (Or.inl ⟨hlost, rfl⟩)
+          exact Or.inr (Or.inr (Or.inl ⟨hbc, hlost, rfl⟩))
       · exact hok.conserve.finish hcp
           ((s.threads t).tidv, (processResp (s.threads t).cur.unit (s.threads t).tidv s.buf (s.threads t).resp).1)
           (by simp [stepOp, upd_same]) (by simp [stepOp, upd_same]) (by simp [stepOp, upd_same])
@@ -601,9 +661,9 @@ theorem inv_holder_op {s : State} {t : Nat} {op : Op} {ops : List Op} (hi : Inv 
           (curPending_congr' (by simp [stepOp, hc, upd_same]) (by rw [h]; simp) (by simp [stepOp, hc, upd_same]))
     | false =>
       -- refused: ConnectionException leaves `execute`, the `with` gives the client lock back
-      have hfil : ((Op.acquire :: .tid :: .connect :: .flush :: .send1 :: .send2 :: tailOps k).filter
+      have hfil : ((Op.acquire :: .tid :: .connect :: .flush :: .send1 :: .send2 :: tailX (s.threads t).cur k).filter
           (· == .crelease)) = [.crelease] := by
-        simp [List.filter_cons, filter_crelease_tail]
+        simp [List.filter_cons, filter_crelease_tailX]
       refine inv_holder_step hi hl hoth (by simpa [stepOp, hc] using hl)
         (Stage.crel ?_ ⟨?_, ?_, ?_, ?_⟩ ?_) ⟨?_, ?_⟩
       · simp [stepOp, hc, upd_same, hfil]
@@ -646,7 +706,7 @@ theorem inv_holder_op {s : State} {t : Nat} {op : Op} {ops : List Op} (hi : Inv 
         (by simp [stepOp, lockKey, lockAcquire, hm', upd_same])
         (curPending_congr' (by simp [stepOp, lockKey, lockAcquire, hm', upd_same]) (by rw [h]; simp)
           (by simp [stepOp, lockKey, lockAcquire, hm', upd_same]))
-  | closedProc h hr hlost hs hb hw hfr hm =>
+  | closedProc h hr hbc hlost hs hb hw hfr hm =>
     rw [h] at hops; cases hops
     have hb0 : s.buf = [] := hb
     have hs' : s.sock = none := hs
@@ -671,7 +731,7 @@ theorem inv_holder_op {s : State} {t : Nat} {op : Op} {ops : List Op} (hi : Inv 
       | inr hx' =>
         rw [List.mem_singleton] at hx'
         rw [hx', hpr']
-        exact Or.inr (Or.inl ⟨hlost, rfl⟩)
+        exact Or.inr (Or.inr (Or.inl ⟨hbc, hlost, rfl⟩))
     · exact hok.conserve.finish hcp
         ((s.threads t).tidv, (processResp (s.threads t).cur.unit (s.threads t).tidv s.buf (s.threads t).resp).1)
         (by simp [stepOp, upd_same]) (by simp [stepOp, upd_same]) (by simp [stepOp, upd_same])
@@ -782,7 +842,8 @@ theorem inv_step {s : State} (hi : Inv reqs s) (t : Nat) : Inv reqs (step .whole
           obtain ⟨h, d⟩ := p
           have hne := hnot h d hl
           have e : stepOp .whole s t (s.threads t)
-              (.preconnect :: .acquire :: .tid :: .connect :: .flush :: .send1 :: .send2 :: tailOps k) .cacquire = s := by
+              (.preconnect :: .acquire :: .tid :: .connect :: .flush :: .send1 :: .send2 :: tailX (s.threads t).cur k)
+              .cacquire = s := by
             simp [stepOp, clientKey, lockAcquire, hl, Ne.symm hne]
           show Inv reqs (stepOp .whole s t (s.threads t) _ .cacquire)
           rw [e]; exact hi
